@@ -546,7 +546,7 @@ def _job(job):
 
     st = explorer.explore(factory, case, bound, max_execs=4000, max_passes=200000, on_exec=on_exec)
     if st["truncated"]:
-        part.cap(f"execution cap hit for {name} at bound {bound}")
+        part.cap(f"execution cap hit for {name} at bound {bound} (complete up to bound {st['completed_bound']}, {st['executions']} executions reported)")
     part.sample({"case": name, "bound": bound, "executions": st["executions"]})
     return part
 
